@@ -12,6 +12,7 @@ import (
 	"strings"
 	"sync"
 	"time"
+	"unicode"
 
 	"golang.org/x/tools/go/packages"
 	"golang.org/x/tools/go/ssa"
@@ -579,3 +580,113 @@ func NilError() Value { return iface{} }
 
 // MkTuple builds a multi-result value.
 func MkTuple(elems ...Value) Value { return tuple(append([]value{}, elems...)) }
+
+// Method finds a method of a named type of a loaded package (pointer
+// receiver methods included).
+func (e *Engine) Method(pkgPath, typeName, method string) *ssa.Function {
+	pkg := e.P.Prog.ImportedPackage(pkgPath)
+	if pkg == nil {
+		panic(EngineError{"package not loaded: " + pkgPath})
+	}
+	tn := pkg.Type(typeName)
+	if tn == nil {
+		panic(EngineError{"type not found: " + typeName})
+	}
+	for _, t := range []types.Type{types.NewPointer(tn.Type()), tn.Type()} {
+		if sel := e.P.Prog.MethodSets.MethodSet(t).Lookup(pkg.Pkg, method); sel != nil {
+			if fn := e.P.Prog.MethodValue(sel); fn != nil {
+				return fn
+			}
+		}
+	}
+	panic(EngineError{"method not found: " + typeName + "." + method})
+}
+
+// FieldIndex returns the index of a struct field by name (-1 if absent).
+func (e *Engine) FieldIndex(pkgPath, typeName, field string) int {
+	pkg := e.P.Prog.ImportedPackage(pkgPath)
+	if pkg == nil {
+		return -1
+	}
+	tn := pkg.Type(typeName)
+	if tn == nil {
+		return -1
+	}
+	st, ok := tn.Type().Underlying().(*types.Struct)
+	if !ok {
+		return -1
+	}
+	for i := 0; i < st.NumFields(); i++ {
+		if st.Field(i).Name() == field {
+			return i
+		}
+	}
+	return -1
+}
+
+// SetField overwrites field idx of the struct that ptr points to.
+func SetField(ptr Value, idx int, v Value) {
+	(*ptr.(*value)).(structure)[idx] = v
+}
+
+// GetField reads field idx of the struct that ptr points to.
+func GetField(ptr Value, idx int) Value {
+	return (*ptr.(*value)).(structure)[idx]
+}
+
+// representative non-ASCII characters per UTF-8 width, with their real
+// classification (used instead of the whole Unicode range).
+var cellReps = map[int][]rune{
+	2: {0xE9 /* é letter */, 0x663 /* arabic-indic digit */, 0xA0 /* no-break space */, 0xD7 /* × symbol */, 0x85 /* NEL (space) */},
+	3: {0x30DD /* ポ letter */, 0xFF15 /* fullwidth digit */, 0x2028 /* line separator (space) */, 0x20AC /* € symbol */, 0xFFFD /* replacement character */},
+	4: {0x1D4B3 /* 𝒳 letter */, 0x1D7D9 /* 𝟙 digit */, 0x1F600 /* 😀 symbol */},
+}
+
+// NewCell declares a symbolic source character of the given UTF-8 width.
+// Width 1 is any ASCII byte in [lo,127]; wider cells range over a set of
+// representative characters whose Unicode classification is asserted from
+// the host's tables. exclude lists code points to leave out.
+func (c *Ctx) NewCell(width int, lo int, exclude ...rune) SymInt {
+	c.nvars++
+	name := fmt.Sprintf("cell%d_%d", width, c.nvars)
+	c.S.Declare(name, "Int")
+	c.IntVars = append(c.IntVars, name)
+	if width == 1 {
+		c.addPC(fmt.Sprintf("(and (>= %s %d) (<= %s 127))", name, lo, name))
+	} else {
+		var alts, ax []string
+		for _, r := range cellReps[width] {
+			skip := false
+			for _, x := range exclude {
+				if x == r {
+					skip = true
+				}
+			}
+			if skip {
+				continue
+			}
+			alts = append(alts, fmt.Sprintf("(= %s %d)", name, r))
+			b := func(v bool, p string) string {
+				if v {
+					return fmt.Sprintf("(%s %d)", p, r)
+				}
+				return fmt.Sprintf("(not (%s %d))", p, r)
+			}
+			ax = append(ax, b(unicode.IsLetter(r), "uIsLetter"), b(unicode.IsDigit(r), "uIsDigit"), b(unicode.IsSpace(r), "uIsSpace"))
+		}
+		c.addPC(orTerm(alts...))
+		c.addPC(andTerm(ax...))
+	}
+	for _, x := range exclude {
+		if width == 1 {
+			c.addPC(fmt.Sprintf("(not (= %s %d))", name, x))
+		}
+	}
+	return SymInt{T: name, Kind: types.Int32}
+}
+
+// CellPart makes the rope part of a symbolic source character.
+func CellPart(v SymInt) Part { return Part{Kind: PCell, Lit: v.T, Width: CellWidth(v.T)} }
+
+// LitPart makes a literal rope part.
+func LitPart(s string) Part { return Part{Kind: PLit, Lit: s} }
